@@ -120,6 +120,9 @@ int aln_runner(struct aln_mem* m)
         if(m->mode == ALN_MODE_SCORE_ONLY){
                 m->score = score;
         }else{
+#ifdef KALIGN_VERIF
+                m->kv_score = score;
+#endif
                 aln_continue(m, input_states,old_cor, meet, transition,0);
         }
         return OK;
@@ -196,6 +199,9 @@ int aln_runner_serial(struct aln_mem* m)
         if(m->mode == ALN_MODE_SCORE_ONLY){
                 m->score = score;
         }else{
+#ifdef KALIGN_VERIF
+                m->kv_score = score;
+#endif
                 aln_continue(m, input_states,old_cor, meet, transition,1);
         }
         return OK;
